@@ -163,7 +163,7 @@ func checkCase(c Case) (out evid.Outcome) {
 		if (hit.Handler >= 0) == hit.NotFound {
 			return fail(out, "both-or-neither", "%s: route handler ran=%v (#%d), not-found chain ran=%v (status %d)", desc, hit.Handler >= 0, hit.Handler, hit.NotFound, hit.Status)
 		}
-		if !known && !hit.NotFound {
+		if !known && !hit.NotFound && !(m != "" && isKnown(strings.ToUpper(m))) {
 			return fail(out, "unknown-method-dispatched", "%s: unknown method was dispatched to handler #%d", desc, hit.Handler)
 		}
 		again := serve()
@@ -177,7 +177,13 @@ func checkCase(c Case) (out evid.Outcome) {
 			out.Classes = append(out.Classes, "not-found")
 		}
 		// the reference winner
-		if strings.Contains(p, "\n") || strings.Count(p, "/") > 64 {
+		if strings.Contains(p, "\n") {
+			continue
+		}
+		if !known && m != "" && isKnown(strings.ToUpper(m)) {
+			// "get", "Get": whether that is the method GET is not said (registration
+			// folds case, C08 leaves the spelling open): nothing further is held
+			out.Classes = append(out.Classes, "request-method-spelling-open")
 			continue
 		}
 		routes, ok := compiled[m]
@@ -194,6 +200,26 @@ func checkCase(c Case) (out evid.Outcome) {
 			compiled[m] = routes
 		}
 		hdr := q.Header()
+		if strings.Count(p, "/") > 64 {
+			// the reference winner costs too much on very long paths; what is held
+			// instead: the route that answered admits the path on its own, and a
+			// path some route admits is not left to the not-found chain
+			adm := model.Admitting(routes, p, hdr, nil)
+			okServed := hit.Handler < 0
+			for _, a := range adm {
+				if a.Route.Index == hit.Handler {
+					okServed = true
+				}
+			}
+			if !okServed {
+				return fail(out, "wrong-outcome", "%s: handler #%d ran, whose route does not admit the path; routes %v", desc, hit.Handler, c.Regs)
+			}
+			if hit.Handler < 0 && len(adm) > 0 {
+				return fail(out, "wrong-outcome", "%s: left to the not-found chain although route #%d admits the path; routes %v", desc, adm[0].Route.Index, c.Regs)
+			}
+			out.Classes = append(out.Classes, "very-long-path-admission-only")
+			continue
+		}
 		want := model.Match(routes, p, hdr, nil)
 		wi := -1
 		if want.Found {
@@ -204,6 +230,15 @@ func checkCase(c Case) (out evid.Outcome) {
 		}
 	}
 	return out
+}
+
+func isKnown(m string) bool {
+	for _, x := range model.Methods {
+		if x == m {
+			return true
+		}
+	}
+	return false
 }
 
 // serveOn sends one request (with its odd header shapes) to an application.
@@ -334,7 +369,17 @@ func genCase(t *rapid.T) Case {
 			m, pth = joined[:k], joined[k:]
 		}
 		q := QReq{M: strconv.QuoteToASCII(m), P: strconv.QuoteToASCII(pth), W: gen.Wire(t)}
-		switch rapid.IntRange(0, 5).Draw(t, "hk") { // 5 = an empty, non-nil header map
+		switch rapid.IntRange(0, 8).Draw(t, "hk") { // 5 = an empty, non-nil header map
+		case 6: // very many header fields, the constrained one last
+			for k := 0; k < 300; k++ {
+				q.H = append(q.H, [2]string{fmt.Sprintf("X-Filler-%d", k), strings.Repeat("f", k%17)})
+			}
+			q.H = append(q.H, [2]string{"X-Api", []string{"v1", "7"}[rapid.IntRange(0, 1).Draw(t, "xv")]})
+		case 7: // the same field several times with the same value, and a huge value
+			v := []string{"v1", "7", ""}[rapid.IntRange(0, 2).Draw(t, "xv")]
+			q.H = [][2]string{{"X-Api", v}, {"Accept", strings.Repeat("7", 70000)}, {"X-Api", v}, {"X-Api", v}}
+		case 8: // the names in other spellings (the request's map is canonical all the same)
+			q.H = [][2]string{{"x-api", "v1"}, {"ACCEPT", "12"}}
 		case 0:
 			q.NH = true
 		case 1:
